@@ -695,9 +695,37 @@ def c10(W, replay=None):
         tr2 = W.drive("TestSys", sys_sc, "sys")
         vs.append(W.validate(tr2, "sys"))
         traces += len(sys_sc)
+        # the service as actually assembled: the binary built from ./cmd, real configuration file, gRPC, real time
+        bv, bsc = binary_tier(W)
+        index.update({s_["id"]: s_ for s_ in bsc})
+        vs.append(bv)
+        traces += len(bsc)
     return judge("C10", W, vs, index, traces=traces, samples=[{"scenario": scen[0] if scen else None, "recorded_events": sample_events(trace, maxev=30)}],
                  assumptions=["virtual clock through the verif clock hook (H1) and miniredis SetTime/FastForward",
                               "limits are exercised away from the exact boundary second at store level; the monitor allows either outcome within one second of a limit"])
+
+
+def binary_tier(W):
+    binp = W.path("authservice-bin")
+    p = subprocess.run(["go", "build", "-o", binp, "./cmd"], cwd=vlib.REPO, env=vlib.goenv(), capture_output=True, text=True, timeout=900)
+    if p.returncode != 0:
+        raise Infra("building ./cmd failed:\n" + p.stdout[-2000:] + p.stderr[-2000:])
+    scen = []
+    for st in ("memory", "redis"):
+        scen += [{"id": "c10bin/%s/abs4" % st, "store": st, "abs": 4, "idle": 0, "probes": [1.0, 2.0, 6.5]},
+                 {"id": "c10bin/%s/idle3" % st, "store": st, "abs": 0, "idle": 3, "probes": [1.0, 2.2, 3.4, 8.5]},
+                 {"id": "c10bin/%s/abs7idle3" % st, "store": st, "abs": 7, "idle": 3, "probes": [1.2, 2.4, 3.6, 4.8, 9.2]},
+                 {"id": "c10bin/%s/none" % st, "store": st, "abs": 0, "idle": 0, "probes": [1.0, 5.0]}]
+    if W.tier == "thorough":
+        for st in ("memory", "redis"):
+            scen += [{"id": "c10bin/%s/idle2-late" % st, "store": st, "abs": 0, "idle": 2, "probes": [4.5]},
+                     {"id": "c10bin/%s/abs5-active" % st, "store": st, "abs": 5, "idle": 0, "probes": [1.0, 2.0, 3.0, 7.0, 8.0]},
+                     {"id": "c10bin/%s/abs10idle4" % st, "store": st, "abs": 10, "idle": 4, "probes": [2.0, 4.0, 6.0, 8.0, 12.5]}]
+    trace = W.drive("TestBinary", scen, "binary", env_extra={"VERIF_BIN": binp}, timeout=600)
+    v = W.validate(trace, "binary", module="BinaryTrace")
+    if v["fired"].get("scenarios", 0) != len(scen):
+        raise Infra("BinaryTrace judged %s scenarios, driver ran %d" % (v["fired"].get("scenarios"), len(scen)))
+    return v, scen
 
 
 def timeout_system_scenarios(W):
